@@ -10,16 +10,16 @@ import (
 	"github.com/99designs/gqlgen/zzsym"
 )
 
-func Setup_C03_history() { Setup_C03_gates() }
+func Setup_C03_docHistory() { Setup_C03_gates() }
 
-// Harness_C03_history: one executor with a query cache (the map cache or the
+// Harness_C03_docHistory: one executor with a query cache (the map cache or the
 // LRU the default server installs) serves two requests of the corpus one
 // after the other - the same text under another operation name or other
 // variables, or another text: the second request is accepted or refused
 // exactly as on a fresh executor, the operation it is accepted as is the one
 // it names, and nothing runs for a refused one. (The parsed document of the
 // first request is what the second is judged on when the text is the same.)
-func Harness_C03_history() {
+func Harness_C03_docHistory() {
 	c03Log = nil
 	first := c03Corpus[zzsym.Choice("first", len(c03Corpus))]
 	second := c03Corpus[zzsym.Choice("second", len(c03Corpus))]
@@ -47,12 +47,12 @@ func Harness_C03_history() {
 			nops = 2
 		}
 		zzsym.Assert(len(rc.Doc.Operations) == nops, "the accepted request sees the whole document it sent")
-		zzsym.Reach("c03.history.accepted")
+		zzsym.Reach("c03.dochistory.accepted")
 	} else {
 		for _, ev := range c03Log {
 			ran := len(ev) >= 3 && (ev[:3] == "op." || ev[:3] == "roo" || ev[:3] == "fie" || ev[:3] == "exe")
 			zzsym.Assert(!ran, "nothing runs for a refused request")
 		}
-		zzsym.Reach("c03.history.refused")
+		zzsym.Reach("c03.dochistory.refused")
 	}
 }
